@@ -66,10 +66,10 @@ func Contention(rng *rand.Rand, name string, o ContentionOpts) (*spec.Spec, vpro
 	}
 	if o.Streaming {
 		s.Procs = append(s.Procs, &spec.Proc{Name: "sprod", Kind: spec.KCmd,
-			Cmd: spec.BuildCmd("sprod", nil, []spec.PortDecl{{Name: "out", Stream: true}}, nil, nil, map[string]string{"size": "70000", "pause": fmt.Sprint(o.SleepHi)}),
+			Cmd:  spec.BuildCmd("sprod", nil, []spec.PortDecl{{Name: "out", Stream: true}}, nil, nil, map[string]string{"size": "70000", "pause": fmt.Sprint(o.SleepHi)}),
 			Outs: []*spec.Out{{Port: "out", Pattern: "stream.dat"}}})
 		s.Procs = append(s.Procs, &spec.Proc{Name: "scons", Kind: spec.KCmd,
-			Cmd: spec.BuildCmd("scons", []spec.PortDecl{{Name: "in"}}, []spec.PortDecl{{Name: "out"}}, nil, nil, map[string]string{"post": fmt.Sprint(o.SleepHi)}),
+			Cmd:  spec.BuildCmd("scons", []spec.PortDecl{{Name: "in"}}, []spec.PortDecl{{Name: "out"}}, nil, nil, map[string]string{"post": fmt.Sprint(o.SleepHi)}),
 			Outs: []*spec.Out{{Port: "out", Pattern: "stream.consumed"}}})
 		s.Conns = append(s.Conns, &spec.Conn{From: "sprod.out", To: "scons.in"})
 	}
